@@ -22,7 +22,7 @@ for model in ([a.model] if a.model else c.stream_models):
         for i, ob in enumerate(vr.obligations):
             if ob.goal.op == 'bool' and ob.goal.args[0] is True:
                 continue
-            jobs.append((i, prelude.build_query(ob.hyps, ob.goal), prelude.build_query(ob.hyps, ob.goal, opaque=True)))
+            jobs.append((i, prelude.build_query(ob.hyps, ob.goal), prelude.pre_query(ob)))
             if a.dump and a.dump[0] in ob.name:
                 open(a.dump[1], 'w').write(jobs[-1][1]); print('dumped', ob.name)
         res = solve.solve_many(jobs, timeout=a.timeout, tier='quick')
